@@ -202,8 +202,18 @@ fn run(deps: DepsMut, env: &Env, script: &Script, ev: &mut Ev) -> StdResult<Resp
                 ev.obs.push((tag.clone(), Obs::Bytes(deps.storage.get(key.as_bytes()))));
             }
             Step::RangeOwn { tag } => {
-                let all: Vec<_> = deps.storage.range(None, None, cosmwasm_std::Order::Ascending).collect();
+                use cosmwasm_std::Order::{Ascending, Descending};
+                let all: Vec<_> = deps.storage.range(None, None, Ascending).collect();
                 ev.obs.push((tag.clone(), Obs::Range(all)));
+                // the other iteration entry points of the Storage trait, as (key, value) with one side empty
+                let desc: Vec<_> = deps.storage.range(None, None, Descending).collect();
+                ev.obs.push((format!("{}/desc", tag), Obs::Range(desc)));
+                for (sfx, order) in [("", Ascending), ("_desc", Descending)] {
+                    let ks: Vec<_> = deps.storage.range_keys(None, None, order).map(|k| (k, vec![])).collect();
+                    ev.obs.push((format!("{}/keys{}", tag, sfx), Obs::Range(ks)));
+                    let vs: Vec<_> = deps.storage.range_values(None, None, order).map(|v| (vec![], v)).collect();
+                    ev.obs.push((format!("{}/values{}", tag, sfx), Obs::Range(vs)));
+                }
             }
             Step::RequireNum { key, min } => {
                 let cur: Uint128 = match deps.storage.get(key.as_bytes()) {
